@@ -25,8 +25,9 @@ def main():
     ap.add_argument("--checks", default=None)
     ap.add_argument("--keep-as", default=None)
     ap.add_argument("--tier", default="quick")
+    ap.add_argument("--round", default="")
     a = ap.parse_args()
-    wt = f"/tmp/mut_{a.prop}"
+    wt = f"/tmp/mut{a.round}_{a.prop}"
     out = f"{wt}/out"
     patch = f"{out}/patch{a.n}.diff"
     demo = f"{out}/demo{a.n}_test.go"
@@ -39,7 +40,7 @@ def main():
     elif "time/" in loc or loc.strip().endswith("time"):
         sub = "time"
     demo_dst = os.path.join(wt, sub, f"zz_demo{a.n}_test.go")
-    tmp_out = f"/tmp/mut_{a.prop}_out"
+    tmp_out = f"/tmp/mut{a.round}_{a.prop}_out"
     report = {"property": a.prop, "n": a.n, "summary": meta.get("summary"), "needs": meta.get("needs")}
     sh("git checkout -- . ", cwd=wt)
     # keep out/ away from `go test ./...`
